@@ -305,6 +305,136 @@ theorem cmd_getTyped_first {τ : Type} (conv : ν → Option τ) (c : CMD.St κ 
       | some x => simp
       | none => simp [iht]
 
+/-! #### `items()` / `values()` / `to_dict()` of a CombinedMultiDict: first wins -/
+
+/-- keys of `ks` not seen before (`found` grows), in order -/
+def newKeys (found : List κ) : List κ → List κ
+  | [] => []
+  | k :: t => if k ∈ found then newKeys found t else k :: newKeys (found ++ [k]) t
+
+theorem firstOcc_eq_newKeys (acc ks : List κ) : firstOcc acc ks = acc ++ newKeys acc ks := by
+  induction ks generalizing acc with
+  | nil => simp [firstOcc, newKeys]
+  | cons k t ih =>
+    simp only [firstOcc, newKeys]
+    by_cases h : k ∈ acc
+    · simp [h, ih]
+    · simp [h, ih]
+
+theorem filter_notMem_snoc (t : List κ) (found : List κ) (k : κ) (hk : k ∉ t) :
+    t.filter (fun x => !decide (x ∈ found ++ [k])) = t.filter (fun x => !decide (x ∈ found)) := by
+  apply List.filter_congr
+  intro x hx
+  have : x ≠ k := fun e => hk (e ▸ hx)
+  simp [this]
+
+theorem newKeys_append (found ks rest : List κ) (hn : ks.Nodup) :
+    newKeys found (ks ++ rest) =
+      ks.filter (fun x => !decide (x ∈ found)) ++ newKeys (found ++ ks.filter (fun x => !decide (x ∈ found))) rest := by
+  induction ks generalizing found with
+  | nil => simp
+  | cons k t ih =>
+    have hk : k ∉ t := (List.nodup_cons.1 hn).1
+    have ht := (List.nodup_cons.1 hn).2
+    simp only [List.cons_append, newKeys, List.filter_cons]
+    by_cases h : k ∈ found
+    · simp only [h, if_true, decide_true, Bool.not_true, Bool.false_eq_true, if_false]
+      exact ih found ht
+    · simp only [h, if_false, decide_false, Bool.not_false, if_true]
+      rw [ih (found ++ [k]) ht, filter_notMem_snoc t found k hk]
+      simp
+
+/-- the `(key, first value)` pairs of one dict -/
+def pairsOf (d : MD.St κ ν) : List (κ × ν) := d.filterMap (fun e => e.2.head?.map (fun v => (e.1, v)))
+
+theorem pairsOf_keys (d : MD.St κ ν) (h : ∀ e ∈ d, e.2 ≠ []) : (pairsOf d).map (·.1) = keys d := by
+  induction d with
+  | nil => rfl
+  | cons e t ih =>
+    obtain ⟨k, vs⟩ := e
+    cases vs with
+    | nil => exact absurd rfl (h (k, []) List.mem_cons_self)
+    | cons v r =>
+      have := ih (fun e he => h e (List.mem_cons_of_mem _ he))
+      simp only [pairsOf] at this
+      simp [pairsOf, keys, this]
+
+theorem pairsOf_getitem (d : MD.St κ ν) (hn : NodupKeys d) (p : κ × ν) (hp : p ∈ pairsOf d) :
+    has d p.1 = true ∧ MD.getitem d p.1 = .ok p.2 := by
+  simp only [pairsOf, List.mem_filterMap] at hp
+  obtain ⟨e, he, hm⟩ := hp
+  obtain ⟨k, vs⟩ := e
+  cases vs with
+  | nil => simp at hm
+  | cons v r =>
+    simp only [List.head?_cons, Option.map_some, Option.some.injEq] at hm
+    subst hm
+    have hl : d.lookup k = some (v :: r) := by
+      induction d with
+      | nil => cases he
+      | cons a t ih =>
+        obtain ⟨ak, av⟩ := a
+        simp only [NodupKeys, List.map_cons, List.nodup_cons] at hn
+        rcases List.mem_cons.1 he with e | e
+        · cases e; simp [List.lookup]
+        · have hne : k ≠ ak := by
+            intro e'; subst e'
+            exact hn.1 (List.mem_map_of_mem (f := fun x => x.1) e)
+          have hb : (k == ak) = false := by simpa using hne
+          simp only [List.lookup, hb]
+          exact ih hn.2 e
+    simp [has, PyDict.get?, MD.getitem, hl]
+
+/-- `CombinedMultiDict.items()` (hence `values()`, `to_dict()`): one pair per key of any wrapped
+dict, keys in order of first appearance, each with the value `combined[key]` - the first value in the
+first dict that has the key -/
+theorem cmd_itemsFirst_spec (c : CMD.St κ ν) (hw : ∀ d ∈ c, MDSpec.WF d) (found : List κ) :
+    ∃ l, CMD.itemsFirstAux found c = .ok l ∧ l.map (·.1) = newKeys found (c.flatMap keys) ∧
+      ∀ p ∈ l, p.1 ∉ found ∧ CMD.getitem c p.1 = .ok p.2 := by
+  induction c generalizing found with
+  | nil => exact ⟨[], rfl, rfl, fun p hp => by cases hp⟩
+  | cons d t ih =>
+    have hd := hw d List.mem_cons_self
+    have hps : MD.itemsFirst d = .ok (pairsOf d) := itemsFirst_wf d hd.2
+    let new := (pairsOf d).filter (fun p => !found.contains p.1)
+    obtain ⟨r, hr, hrk, hrp⟩ := ih (fun d' h' => hw d' (List.mem_cons_of_mem _ h')) (found ++ new.map (·.1))
+    refine ⟨new ++ r, ?_, ?_, ?_⟩
+    · simp only [CMD.itemsFirstAux, hps]
+      have hr' : CMD.itemsFirstAux (found ++ List.map (fun x => x.1)
+          (List.filter (fun p => !found.contains p.1) (pairsOf d))) t = .ok r := hr
+      rw [hr']
+    · have hkeys : new.map (·.1) = (keys d).filter (fun x => !decide (x ∈ found)) := by
+        rw [← pairsOf_keys d hd.2]
+        simp only [new, List.filter_map, Function.comp_def]
+        congr 1
+        apply List.filter_congr
+        intro x _
+        simp
+      simp only [List.flatMap_cons, List.map_append]
+      rw [newKeys_append found (keys d) _ hd.1, hrk, hkeys]
+    · intro p hp
+      rcases List.mem_append.1 hp with h | h
+      · have hm := List.mem_filter.1 h
+        have hnf : p.1 ∉ found := by simpa using hm.2
+        obtain ⟨hh, hg⟩ := pairsOf_getitem d hd.1 p hm.1
+        exact ⟨hnf, by simp [CMD.getitem, hh, hg]⟩
+      · obtain ⟨hnf, hg⟩ := hrp p h
+        have hnf1 : p.1 ∉ found := fun hm => hnf (List.mem_append_left _ hm)
+        have hnd : has d p.1 = false := by
+          cases hh : has d p.1 with
+          | false => rfl
+          | true =>
+            exfalso
+            have hk : p.1 ∈ keys d := (has_iff d p.1).1 hh
+            rw [← pairsOf_keys d hd.2] at hk
+            obtain ⟨q, hq, hqe⟩ := List.mem_map.1 hk
+            apply hnf
+            apply List.mem_append_right
+            apply List.mem_map.2
+            refine ⟨q, List.mem_filter.2 ⟨hq, ?_⟩, hqe⟩
+            simpa [hqe] using hnf1
+        exact ⟨hnf1, by simp [CMD.getitem, hnd, hg]⟩
+
 end Combined
 
 /-! ### pickling / copying / equality / hashing -/
